@@ -184,7 +184,7 @@ class MappingIsoparametric(Mapping):
                  for i in range(self.dim)]
 
         if self.dim == 1:
-            detDF = J[0][0]
+            detDF = J[0][0].copy()  # J hands out its cache entry
         elif self.dim == 2:
             detDF = J[0][0] * J[1][1] - J[0][1] * J[1][0]
         elif self.dim == 3:
